@@ -4,7 +4,7 @@ from __future__ import annotations
 from ..model import AnalysisError
 from ..norm import Normalizer, show_term
 from ..vgraph import NONE, Closure, Ctx, show, walk
-from .util import bind_args, fields, kwargs_of, live, one
+from .util import bind_args, entails, fields, kwargs_of, live, one
 
 EXPLANATION = (
     "C16.1 every mask() (Categorical, Bernoulli, every MultiCategorical piece) builds its own class from logits whose normal form is "
@@ -66,38 +66,37 @@ lg = jnp.concatenate(tuple(jnp.where(m, d.logits, -jnp.inf) for d, m in zip(self
     nz = Normalizer(b)
     loc = s.loc("ActionLayer", "__call__")
     n_masked = n_plain = 0
+    amask = ("param", "action_mask")
     for p in live(s.paths(b, "ActionLayer", "__call__")):
-        gate = [(t, v) for t, v in p.conds if isinstance(t, tuple) and t[0] == "boolop"]
-        if len(gate) != 1:
-            # a path that does not go through the composite gate: it may only hand back the unmasked distribution when it KNOWS there
-            # is no mask (a test on action_mask among its conditions); otherwise it ignores a mask that may be present
-            mask_tests = [(t_, v_) for t_, v_ in p.conds if ("param", "action_mask") in set(walk(t_))]
-            knows_none = any(isinstance(t_, tuple) and t_[0] == "cmp" and t_[2] == ("param", "action_mask") and t_[3] == NONE
-                             and ((t_[1] == "Is" and v_) or (t_[1] == "IsNot" and not v_)) for t_, v_ in mask_tests)
-            uses_mask = ("param", "action_mask") in set(walk(p.ret))
-            s.ob("C16.2", "ActionLayer.__call__[path without the mask gate]", knows_none or uses_mask,
-                 "every path either applies the mask or has established that action_mask is None", loc, key="mask-ignored-path",
-                 detail=f"conditions: {[(show(t_, maxlen=60), v_) for t_, v_ in p.conds]}; returns {show(p.ret, maxlen=120)}",
-                 necessary_for="neither sampling nor the mode ever returns a masked action, for every policy configuration (head depth included)")
-            n_plain += 1
+        # the gate is decided on the truth table of the path's decisions, so `if m is not None and isinstance(d, M): return d.mask(m)`,
+        # the early-return De Morgan spelling, nested ifs and inverted branches are one and the same
+        roots = [p.ret] + [t_ for t_, _ in p.conds]
+        dists = {c for r_ in roots for c in walk(r_) if isinstance(c, tuple) and c and c[0] == "call" and c[1] == ("attr", self_, "action_dist")}
+        s.ob("C16.2", "ActionLayer.__call__", len(dists) == 1, "dist = self.action_dist(features), one distribution per path", loc,
+             key="dist-source", detail="; ".join(show(d_, maxlen=120) for d_ in dists) or "None")
+        if len(dists) != 1:
             continue
-        t, v = gate[0]
-        want_gate = s.ref(b, "action_mask is not None and isinstance(dist, AbstractMaskableDistribution)",
-                          {"action_mask": ("param", "action_mask"), "AbstractMaskableDistribution": ("global", P.cls("AbstractMaskableDistribution").qualname),
-                           "dist": t[2][1][2][0] if t[2][1][0] == "call" else NONE})
-        s.ob("C16.2", "ActionLayer.__call__", nz.canon(t) == nz.canon(want_gate), "the mask is applied when (action_mask is not None) and the distribution is maskable", loc,
-             key="mask-gate", detail=show(t, maxlen=200))
-        dist = t[2][1][2][0] if t[2][1][0] == "call" else None
-        if v:
+        dist = next(iter(dists))
+        gate = s.ref(b, "action_mask is not None and isinstance(dist, AbstractMaskableDistribution)",
+                     {"action_mask": amask, "AbstractMaskableDistribution": ("global", P.cls("AbstractMaskableDistribution").qualname), "dist": dist})
+        e = entails(nz, p.conds, gate)
+        shown = f"conditions: {[(show(t_, maxlen=80), v_) for t_, v_ in p.conds]}; returns {show(p.ret, maxlen=120)}"
+        if e is None:
+            uses_mask = amask in set(walk(p.ret))
+            s.ob("C16.2", "ActionLayer.__call__" + ("" if uses_mask else "[path without the mask gate]"), False,
+                 "the mask is applied exactly when (action_mask is not None) and the distribution is maskable: every path decides both" if uses_mask else
+                 "every path either applies the mask or has established that action_mask is None", loc, key="mask-gate" if uses_mask else "mask-ignored-path", detail=shown,
+                 necessary_for="neither sampling nor the mode ever returns a masked action, for every policy configuration (head depth included)")
+            continue
+        s.ob("C16.2", "ActionLayer.__call__", True, "the path decides the gate (action_mask is not None) and isinstance(dist, AbstractMaskableDistribution)", loc, key="mask-gate")
+        if e:
             n_masked += 1
-            want = ("call", ("attr", dist, "mask"), (("param", "action_mask"),), ())
-            s.ob("C16.2", "ActionLayer.__call__[mask]", nz.canon(p.ret) == nz.canon(want), "returns dist.mask(action_mask)", loc, key="mask-applied", detail=show(p.ret, maxlen=200),
+            want = ("call", ("attr", dist, "mask"), (amask,), ())
+            s.ob("C16.2", "ActionLayer.__call__[mask]", nz.canon(p.ret) == nz.canon(want), "returns dist.mask(action_mask)", loc, key="mask-applied", detail=shown,
                  necessary_for="neither sampling nor the mode ever returns a masked action, end-to-end through the policy")
         else:
             n_plain += 1
-            s.ob("C16.2", "ActionLayer.__call__[no mask]", p.ret == dist, "otherwise returns the distribution unchanged", loc, key="nomask-passthrough", detail=show(p.ret, maxlen=160))
-        s.ob("C16.2", "ActionLayer.__call__", isinstance(dist, tuple) and dist[0] == "call" and dist[1] == ("attr", self_, "action_dist"), "dist = self.action_dist(features)", loc,
-             key="dist-source", detail=show(dist or NONE, maxlen=120))
+            s.ob("C16.2", "ActionLayer.__call__[no mask]", nz.canon(p.ret) == nz.canon(dist), "otherwise returns the distribution unchanged", loc, key="nomask-passthrough", detail=shown)
     if not (n_masked and n_plain):
         raise AnalysisError("ActionLayer.__call__: masked / unmasked cases missing")
     pol = "MLPActorCriticPolicy"
